@@ -224,5 +224,20 @@ def run(E: Engine, rep: Report, tier: str) -> dict:
     rep.check(slm_ok, "GUARD", "_construct_hamiltonian|time-dependent-mask-only-xy", "the masked/unmasked interaction split exists only with an SLM mask in XY", "the SLM-mask interaction split condition changed", E.where(ch))
     cz_ = [l for l in Sc2.logged("store") if l.fn == ch.short and l.target is not None and l.target[0] == "idx" and l.value == ("const", 0) and is_(unobj(l.target[1]), "np.ones(Q_n)") is not None]
     rep.check(bool(cz_) and all(is_(l.target[2], "slice(0, self.samples_obj._slm_mask.end)") is not None for l in cz_), "GUARD", "_construct_hamiltonian|unmasked-off-during-mask", "full interaction switched off exactly during [0, mask end)", "the mask interval of the interaction coefficient changed", E.where(ch))
-    rep.floor("GUARD", 5)
+    # per-run noise state: it is reset by set_config exactly when _update_noise will not redraw it
+    un = E.method(HAM, "_update_noise")
+    sc = E.method(HAM, "set_config")
+    Su, Sset = S(E, un, inline=False), S(E, sc, inline=False)
+    for fld in ("_bad_atoms", "_doppler_detune"):
+        tgt = ("attr", ("name", "self"), fld)
+        draws = [l for l in Su.logged("store") if l.target == tgt]
+        resets = [l for l in Sset.logged("store") if l.target == tgt]
+        def noise_guard(c):
+            # the part of the path condition that is about the configured noise
+            return sym.mk_and([x for x in sym.conj_of(c) if mentions(x, "noise_types", "state_prep_error", "temperature") and mentions(x, "config", "_config")])
+
+        ok = len(draws) == 1 and len(resets) == 1 and noise_guard(resets[0].cond) == sym.mk_not(noise_guard(draws[0].cond)) and noise_guard(draws[0].cond) != sym.TRUE
+        rep.check(ok, "GUARD", f"Hamiltonian.set_config|{fld}-reset-iff-not-redrawn", f"{fld} is reset by set_config exactly when _update_noise does not redraw it",
+                  f"set_config resets {fld} under [{sh(resets[0].cond, 120) if resets else '?'}] while _update_noise redraws it under [{sh(draws[0].cond, 120) if draws else '?'}]: when neither holds the values of the previous configuration survive and the next Hamiltonian is built with stale noise", E.where(sc))
+    rep.floor("GUARD", 7)
     return {"op_ids": op_ids}
